@@ -1241,7 +1241,21 @@ fn run_timeout(case_seed: u64, r: &mut Report) {
         r.inconclusive("timeout: machine too slow for the takeover window (don't care)");
     }
     let _ = e.rollback(t3);
-    let _ = e.commit(t2);
+    // t2 holds the row through a take-over of an expired lock; when t2 ends the row must be free
+    let end_t2 = if case_seed & 2 == 0 { e.commit(t2).is_ok() } else { e.rollback(t2).is_ok() };
+    let t4 = e.begin_transaction();
+    match e.tx_update(t4, T, Condition::True, ups(5)) {
+        Ok(1) => r.count("timeout_takeover_lock_released_when_new_holder_ends", 1),
+        other => {
+            r.violation(
+                "locks:taken-over-lock-still-held-after-its-holder-ended",
+                format!("t2 took over a row whose lock t1 had let expire and then ended (ok={}); right afterwards a new transaction's write on that row got {:?}; holder reported: {:?}", end_t2, other, e.tx_manager().row_lock_holder(T, 1)),
+                replay,
+            );
+            return;
+        }
+    }
+    let _ = e.rollback(t4);
     r.eval(hash_combine(case_seed, 0x71), true);
     r.count("programs:timeout", 1);
 }
@@ -1402,6 +1416,78 @@ fn run_rollback_after_expiry(case_seed: u64, r: &mut Report) {
     r.eval(hash_combine(case_seed, 0x74), true);
 }
 
+/// A rollback one of whose undo steps cannot be carried out (the transaction wrote into two tables
+/// and one of them was dropped meanwhile) still ends the transaction: whatever it reports, its row
+/// locks on the surviving table are gone and the surviving table is as before.
+fn run_rollback_with_failing_undo(case_seed: u64, r: &mut Report) {
+    let replay = json!({"part": "rollback-failing-undo", "case_seed": case_seed});
+    let e = RelationalEngine::with_config(cfg(10_000_000));
+    let t_other = "other_t";
+    if e.create_table(T, schema()).is_err() || e.create_table(t_other, schema()).is_err() {
+        r.inconclusive("rollback-failing-undo: setup failed");
+        return;
+    }
+    if case_seed & 1 == 0 {
+        let _ = e.create_index(T, "k");
+        let _ = e.create_btree_index(T, "v");
+    }
+    for k in 1..=3i64 {
+        let _ = e.insert(T, to_map(&[Value::Int(k), Value::Int(k * 10), Value::Null, Value::Float(0.0)]));
+        let _ = e.insert(t_other, to_map(&[Value::Int(k), Value::Int(k * 10), Value::Null, Value::Float(0.0)]));
+    }
+    let rows = |e: &RelationalEngine| -> Vec<String> {
+        let mut out = Vec::new();
+        for c in [Condition::True, Condition::Ge("v".into(), Value::Int(0)), Condition::Eq("k".into(), Value::Int(2))] {
+            let mut v: Vec<String> = e.select(T, c.clone()).map(|rs| rs.iter().map(|x| format!("{}:{:?}", x.id, x.values)).collect()).unwrap_or_else(|er| vec![format!("error {:?}", er)]);
+            v.sort();
+            out.push(format!("{:?} -> {:?}", c, v));
+        }
+        out
+    };
+    let before = rows(&e);
+    let ups = |v: i64| -> HashMap<String, Value> { [("v".to_string(), Value::Int(v))].into_iter().collect() };
+    let t1 = e.begin_transaction();
+    let w1 = e.tx_update(t1, T, Condition::Eq("k".into(), Value::Int(1)), ups(111));
+    let w2 = if case_seed & 2 == 0 {
+        e.tx_insert(t1, t_other, to_map(&[Value::Int(9), Value::Int(90), Value::Null, Value::Float(0.0)])).map(|_| 1)
+    } else {
+        e.tx_update(t1, t_other, Condition::Eq("k".into(), Value::Int(2)), ups(222))
+    };
+    if w1.is_err() || w2.is_err() {
+        r.inconclusive("rollback-failing-undo: writes failed");
+        return;
+    }
+    if e.drop_table(t_other).is_err() {
+        // the engine refuses the DDL while a transaction has touched the table: nothing to judge
+        let _ = e.rollback(t1);
+        r.count("rollback_failing_undo_drop_refused", 1);
+        r.eval(hash_combine(case_seed, 0x75), true);
+        return;
+    }
+    let rb = e.rollback(t1);
+    r.count(if rb.is_ok() { "rollback_failing_undo_reported_ok" } else { "rollback_failing_undo_reported_error" }, 1);
+    let after = rows(&e);
+    if after != before {
+        let d: Vec<String> = before.iter().zip(after.iter()).filter(|(a, b)| a != b).map(|(a, b)| format!("before {} / after {}", a, b)).collect();
+        r.violation("rollback:surviving-table-differs-after-rollback-with-failing-undo", format!("rollback() = {:?}; {}", rb.as_ref().map(|_| ()), d.join("; ")), replay);
+        return;
+    }
+    let t2 = e.begin_transaction();
+    match e.tx_update(t2, T, Condition::Eq("k".into(), Value::Int(1)), ups(5)) {
+        Ok(1) => r.count("rollback_failing_undo_locks_released", 1),
+        other => {
+            r.violation(
+                "locks:still-held-after-rollback-with-failing-undo",
+                format!("t1 wrote a row of {} and of a second table, the second table was dropped, rollback(t1) = {:?}; afterwards a new transaction's write on the row of {} got {:?}; holder reported {:?}; using t1 again: {:?}", T, rb.as_ref().map(|_| ()), T, other, e.tx_manager().row_lock_holder(T, 1), e.tx_update(t1, T, Condition::True, ups(6)).map(|_| ())),
+                replay,
+            );
+            return;
+        }
+    }
+    let _ = e.rollback(t2);
+    r.eval(hash_combine(case_seed, 0x75), true);
+}
+
 /// minimal witness of the known defect (`--probe 1`)
 fn probe() {
     let e = RelationalEngine::with_config(cfg(10_000_000));
@@ -1458,6 +1544,7 @@ fn main() {
         "timeout" => run_timeout(seed, r),
         "timeout-partial" => run_timeout_partial(seed, r),
         "rollback-after-expiry" => run_rollback_after_expiry(seed, r),
+        "rollback-failing-undo" => run_rollback_with_failing_undo(seed, r),
         other => r.inconclusive(&format!("unknown part {}", other)),
     };
 
@@ -1499,6 +1586,7 @@ fn main() {
                             for j in 0..4u64 {
                                 run_timeout_partial(case_seed(seed ^ 0x78, i as u64 * 4 + j) & !3 | j, &mut rr);
                                 run_rollback_after_expiry(case_seed(seed ^ 0x79, i as u64 * 4 + j) & !7 | (j + 4 * (i as u64 & 1)), &mut rr);
+                                run_rollback_with_failing_undo(case_seed(seed ^ 0x7B, i as u64 * 4 + j) & !3 | j, &mut rr);
                             }
                             rr
                         })).collect();
@@ -1552,12 +1640,12 @@ fn main() {
             floors.extend([("programs:threads", 20u64), ("threads_lock_conflicts", 50), ("threads_writes", 2_000)]);
         }
         if want("timeout") {
-            floors.extend([("timeout_release_seen", 1u64), ("timeout_partial_other_lock_survives_takeover", 2), ("timeout_partial_locks_gone_after_sweep_and_end", 2), ("rollback_after_expiry_restored", 4)]);
+            floors.extend([("timeout_release_seen", 1u64), ("timeout_partial_other_lock_survives_takeover", 2), ("timeout_partial_locks_gone_after_sweep_and_end", 2), ("rollback_after_expiry_restored", 4), ("timeout_takeover_lock_released_when_new_holder_ends", 1)]);
         }
     }
     let meta = Meta {
         property: "C09",
-        rule: "one evaluation = one executed program (seq: one transaction at a time; interleave: 2-4 transactions in a random single-threaded interleaving; threads: 2-8 real threads; timeout: lock expiry, take-over of an expired lock while the old holder ends, take-over of ONE expired lock of a transaction whose other lock is still fresh, the expired-lock sweep followed by the end of the transaction, and rollback after the transaction's own locks expired) that passed every per-step check; distinct by hash of the executed statement trace; non-trivial when it contains >=3 transactional statements and at least one finished transaction (threads: at least one lock conflict occurred)",
+        rule: "one evaluation = one executed program (seq: one transaction at a time; interleave: 2-4 transactions in a random single-threaded interleaving; threads: 2-8 real threads; timeout: lock expiry, take-over of an expired lock while the old holder ends, take-over of ONE expired lock of a transaction whose other lock is still fresh, the expired-lock sweep followed by the end of the transaction, rollback after the transaction's own locks expired, and rollback with an undo step that cannot be carried out) that passed every per-step check; distinct by hash of the executed statement trace; non-trivial when it contains >=3 transactional statements and at least one finished transaction (threads: at least one lock conflict occurred)",
         assumptions: vec![
             "per-step state checks only judge rows no active transaction has touched, so they hold under any isolation level; whole-table, index-battery and lock-table checks run whenever no transaction is active".into(),
             "a write whose condition matches a row *updated* by another active transaction must fail with LockConflict; for rows *inserted* or *deleted* by another active transaction either LockConflict or 'row not visible' is accepted, but actually modifying such a row is a violation".into(),
